@@ -92,6 +92,15 @@ def decode(p, expect=None):
 
 
 def transform(p):
+    """post-cache transform: mutable samples (tensor / ndarray / dict) are changed IN PLACE and returned (as x.add_(...) or a
+    normalisation would), everything else is wrapped; either way one application adds TADD to what `decode` reads, so a cache that
+    hands out the object it keeps (or shares its storage) shows as a second TADD"""
+    if hasattr(p, "shape"):
+        p += TADD
+        return p
+    if isinstance(p, dict) and isinstance(p.get("x"), int) and not isinstance(p.get("x"), bool):
+        p["x"] += TADD
+        return p
     return ("T!", p)
 
 
